@@ -53,3 +53,85 @@ Proof.
   - right. eauto.
   - exists 1%N, 2%N, [SMerge]. repeat split. reflexivity. 
 Qed.
+
+(* the whole program: two runs of go that differ only in --skip/--take (one input without read errors, --on-error=ignore, any configuration that builds) *)
+From Jawk Require Import Base Json Reader Ctx Printer Expr Chain PipelineSpec Go ProgramProofs.
+
+(* without a collector: the rows written with --skip S --take T are exactly rows S..S+T-1 of the rows written without them (the run without them builds, starts with the same header and succeeds) *)
+Theorem C08_program_slice :
+  forall (cf : cfg) (fname : option str) (evs : list ev) (b : bool) (p : printer)
+      (sts : list stage) (hdr : list byte),
+    c_on_error cf = OnIgnore ->
+    Forall (fun e : ev => e <> EErr) evs ->
+    build_pipeline cf = Some (p, sts) ->
+    start_output p (titles expr sts []) (c_rowsep cf) = Some hdr ->
+    (forall t : N, c_take cf = Some t -> (c_skip cf + t <= 18446744073709551615)%N) ->
+    c_group cf = None ->
+    exists sts0 : list stage,
+      build_pipeline (no_limit cf) = Some (p, sts0) /\
+      start_output p (titles expr sts0 []) (c_rowsep (no_limit cf)) = Some hdr /\
+      (let cs := fst (fst (ctxs_of_input cf fname evs)) in
+       let nt := length (titles expr sts []) in
+       let rows0 := spec expr get sts0 cs in
+       spec expr get sts cs = slice (c_skip cf) (c_take cf) rows0 /\
+       g_result (go (no_limit cf) [(fname, evs)] b) = GOk /\
+       g_events (go (no_limit cf) [(fname, evs)] b) = hdr_events hdr ++ emit cf p nt rows0 /\
+       g_result (go cf [(fname, evs)] b) = GOk /\
+       g_events (go cf [(fname, evs)] b) =
+       hdr_events hdr ++ slice (c_skip cf) (c_take cf) (emit cf p nt rows0)).
+Proof. exact program_slice. Qed.
+Print Assumptions C08_program_slice.
+
+(* with --group-by/--merge: the single collection is built from that slice of the ungrouped, unlimited rows *)
+Theorem C08_program_slice_collect :
+  forall (cf : cfg) (g : option (list byte)) (fname : option str) (evs : list ev)
+      (b : bool) (p : printer) (sts : list stage) (hdr : list byte),
+    c_group cf = Some g ->
+    c_on_error cf = OnIgnore ->
+    Forall (fun e : ev => e <> EErr) evs ->
+    build_pipeline cf = Some (p, sts) ->
+    start_output p (titles expr sts []) (c_rowsep cf) = Some hdr ->
+    (forall t : N, c_take cf = Some t -> (c_skip cf + t <= 18446744073709551615)%N) ->
+    exists (pre00 : list stage) (o : option expr),
+      group_key g = Some o /\
+      hdr = [] /\
+      build_pipeline (no_group (no_limit cf)) = Some (p, pre00) /\
+      start_output p (titles expr pre00 []) (c_rowsep (no_group (no_limit cf))) = Some [] /\
+      (let cs := fst (fst (ctxs_of_input cf fname evs)) in
+       let rows00 := spec expr get pre00 cs in
+       g_result (go (no_group (no_limit cf)) [(fname, evs)] b) = GOk /\
+       g_events (go (no_group (no_limit cf)) [(fname, evs)] b) =
+       emit cf p (length (titles expr pre00 [])) rows00 /\
+       g_result (go cf [(fname, evs)] b) = GOk /\
+       g_events (go cf [(fname, evs)] b) =
+       [OOut
+          (print_row p 0 (c_rowsep cf)
+             (new_with_no_context (collection o (slice (c_skip cf) (c_take cf) rows00))))]).
+Proof. exact program_slice_collect. Qed.
+Print Assumptions C08_program_slice_collect.
+
+Theorem C08_program_limit :
+  forall (cf : cfg) (fname : option str) (evs : list ev) (b : bool) (p : printer)
+      (sts : list stage) (hdr : list byte),
+    c_on_error cf = OnIgnore ->
+    Forall (fun e : ev => e <> EErr) evs ->
+    build_pipeline cf = Some (p, sts) ->
+    start_output p (titles expr sts []) (c_rowsep cf) = Some hdr ->
+    (forall t : N, c_take cf = Some t -> (c_skip cf + t <= 18446744073709551615)%N) ->
+    exists pre0 post : list stage,
+      build_pipeline (no_limit cf) = Some (p, pre0 ++ post) /\
+      start_output p (titles expr (pre0 ++ post) []) (c_rowsep (no_limit cf)) = Some hdr /\
+      titles expr (pre0 ++ post) [] = titles expr sts [] /\
+      build_kind cf KGroup = Some post /\
+      (let cs := fst (fst (ctxs_of_input cf fname evs)) in
+       let nt := length (titles expr sts []) in
+       let rows0 := spec expr get pre0 cs in
+       spec expr get sts cs = spec expr get post (slice (c_skip cf) (c_take cf) rows0) /\
+       g_result (go (no_limit cf) [(fname, evs)] b) = GOk /\
+       g_events (go (no_limit cf) [(fname, evs)] b) =
+       hdr_events hdr ++ emit cf p nt (spec expr get post rows0) /\
+       g_result (go cf [(fname, evs)] b) = GOk /\
+       g_events (go cf [(fname, evs)] b) =
+       hdr_events hdr ++ emit cf p nt (spec expr get post (slice (c_skip cf) (c_take cf) rows0))).
+Proof. exact program_limit. Qed.
+Print Assumptions C08_program_limit.
